@@ -17,4 +17,5 @@ pub mod eng_conf;
 pub mod eng_cli;
 pub mod eng_keys;
 pub mod eng_capi;
+pub mod eng_mem;
 pub mod alloc;
